@@ -161,7 +161,16 @@ def mutate_xml(xml, mut, r):
     if target is None:
         return None, "no-target"
     sig = _sig_of(target)
-    if where in ("sigvalue", "digest"):
+    if where == "sigvalue-empty":
+        # the signature element stays, its SignatureValue is emptied (what an unfilled signature template looks like)
+        if sig is None:
+            return None, "no-signature"
+        node = sig.find(wire.q(wire.DS, "SignatureValue"))
+        if node is None:
+            return None, "empty"
+        node.text = None
+        desc = "sigvalue-empty:%s" % mut.get("target")
+    elif where in ("sigvalue", "digest"):
         if sig is None:
             return None, "no-signature"
         node = sig.find(wire.q(wire.DS, "SignatureValue")) if where == "sigvalue" else \
@@ -830,6 +839,10 @@ class FedSim(object):
         pol_conf = {"default": {"lifetime": {"seconds": lifetime}, "attribute_restrictions": None,
                                 "name_form": NAME_FORMAT_URI,
                                 "nameid_format": p.get("nameid_format") or saml.NAMEID_FORMAT_TRANSIENT}}
+        if p.get("attr_restrictions"):
+            # the operator's release policy names attributes and, for some, patterns their values must match
+            pol_conf["default"]["attribute_restrictions"] = {k: (list(v) if v else None) for k, v in p["attr_restrictions"].items()}
+            self.count("probe.attribute-restrictions-policy")
         if p.get("entity_categories"):
             # the IdP releases by entity category (policy option entity_categories names the category profiles)
             pol_conf["default"]["entity_categories"] = list(p["entity_categories"])
@@ -1323,6 +1336,53 @@ class FedSim(object):
         except Exception as e:
             self.count("event.publish-own-metadata.error." + type(e).__name__)
         return {"node": ev["node"]}
+
+    def ev_slo(self, ev, i):
+        """The SP application logs a user out at an IdP with Saml2Client.do_logout() over the SOAP back channel: the
+        client sends the LogoutRequest through its HTTP layer (simulated network: the IdP node answers, with a healthy
+        tool of its own) and judges the IdP's answer inside the same call.  Tool faults of this event hit the SP's
+        verification of that answer."""
+        sp, idp = self.nodes.get(ev["sp"]), self.nodes.get(ev["idp"])
+        if sp is None or idp is None or sp.kind != "sp":
+            return None
+        w = self.world
+        tool = w.tool
+        name_id = saml.NameID(text=ev.get("subject", "subj-slo-%d" % i), format=saml.NAMEID_FORMAT_PERSISTENT,
+                              sp_name_qualifier=sp.entity_id)
+        rec = {"sp": sp.name, "idp": idp.name, "sign_answer": bool(ev.get("sign_answer", True)), "exchanges": 0}
+
+        def net(method, url, **kw):
+            hook, tool.fault_hook = tool.fault_hook, None        # the IdP's machine is healthy
+            try:
+                with w.on(idp.name):
+                    req = idp.server.parse_logout_request(kw.get("data"), BINDING_SOAP)
+                    resp = idp.server.create_logout_response(req.message, [BINDING_SOAP], sign=rec["sign_answer"])
+                    http = idp.server.apply_binding(BINDING_SOAP, "%s" % resp, "", "", response=True)
+                rec["exchanges"] += 1
+                return seams.SimHttpResponse(200, http["data"])
+            except Exception as e:
+                rec["idp_error"] = type(e).__name__
+                return seams.SimHttpResponse(500, b"error")
+            finally:
+                tool.fault_hook = hook
+        self.install_tool_faults(ev)
+        n0 = len(tool.invocations)
+        old_net = getattr(w, "net", None)
+        w.net = net
+        try:
+            with w.on(sp.name):
+                sp.client.do_logout(name_id, [idp.entity_id], "", None, sign=ev.get("sign_req"),
+                                    expected_binding=BINDING_SOAP)
+            rec["returned"] = True
+            self.count("slo.returned")
+        except Exception as e:
+            rec["exc"] = type(e).__name__
+            self.count("slo.raised." + type(e).__name__)
+        finally:
+            w.net = old_net
+            tool.fault_hook = None
+        rec["tool"] = [dict(t, node=inv.get("node")) for t, inv in zip(self.tool_slice(n0), tool.invocations[n0:])]
+        return rec
 
     def ev_ecp(self, ev, i):
         """The SP application hands a PAOS / ECP answer (the response of flow f inside a SOAP envelope) to
